@@ -86,7 +86,14 @@ func hwParseFeature(tok string) gosensors.Feature {
 			gosensors.SubFeature{Name: name + "_max", Type: maxT, Value: 200})
 	}
 	if flags&1 != 0 {
-		subs = append(subs, gosensors.SubFeature{Name: name + "_input", Type: inT, Value: 1000})
+		// current readings of every magnitude (unconnected diodes report -128 or 255 degrees, a stopped fan 0 RPM):
+		// discovery must not depend on them
+		readings := []float64{1000, -128, 0, 41.5, 255, 65535, -273.15, 199.9}
+		var h uint32
+		for _, c := range name {
+			h = h*31 + uint32(c)
+		}
+		subs = append(subs, gosensors.SubFeature{Name: name + "_input", Type: inT, Value: readings[int(h%uint32(len(readings)))]})
 	}
 	f.SubFeatures = subs
 	return f
